@@ -173,7 +173,14 @@ func main() {
 									last = exprString(es.X)
 								}
 							}
-							if !strings.HasPrefix(last, "close(") {
+							// ... or the body defers the close at its top level (it then runs when the goroutine returns)
+							deferred := false
+							for _, st := range fl.Body.List {
+								if ds, ok := st.(*ast.DeferStmt); ok && strings.HasPrefix(exprString(ds.Call), "close(") {
+									deferred = true
+								}
+							}
+							if !strings.HasPrefix(last, "close(") && !deferred {
 								goCloseLast = false
 							}
 						} else {
@@ -226,7 +233,7 @@ func main() {
 	fmt.Fprintf(&sb, "(* one entry per go statement: the function containing it *)\nDefinition sync_go_statements : list string := %s.\n", coqStrs(goFuncs))
 	sort.Strings(chanMakes)
 	fmt.Fprintf(&sb, "(* one entry per make(chan ...) *)\nDefinition sync_chan_makes : list string := %s.\n", coqStrs(chanMakes))
-	fmt.Fprintf(&sb, "(* every go statement runs a function literal whose last statement is close(ch) *)\nDefinition sync_goroutines_close_last : bool := %v.\n", goCloseLast)
+	fmt.Fprintf(&sb, "(* every go statement runs a function literal whose last statement is close(ch) or that defers close(ch) at its top level *)\nDefinition sync_goroutines_close_last : bool := %v.\n", goCloseLast)
 	fmt.Fprintf(&sb, "(* functions that store a slice-typed parameter itself (not a copy) into a struct field *)\nDefinition sync_slice_params_retained : list string := %s.\n", coqStrs(uniq(retained)))
 	fmt.Fprintf(&sb, "(* exported functions that assign to an element of a slice-typed parameter *)\nDefinition sync_slice_params_written : list string := %s.\n", coqStrs(uniq(paramWrites)))
 	fmt.Fprintf(&sb, "(* functions that call append on a slice-typed parameter (may write beyond its length into the caller's array) *)\nDefinition sync_slice_params_appended : list string := %s.\n", coqStrs(uniq(paramAppends)))
